@@ -147,6 +147,8 @@ class Suite:
         errors = []
         samples = []
         per_kind = {}
+        nmulti = [0]
+
         def with_threads():
             k = 0
             for kind, params in generate(a.tier, rng):
@@ -154,7 +156,12 @@ class Suite:
                 k += 1
                 if self.thread_every and k % self.thread_every == 0 and "_threads" not in params:
                     yield kind, dict(params, _threads=(2, 4)[(k // self.thread_every) % 2])
-                if self.cache_every and k % self.cache_every == 0 and "_cache" not in params and "_threads" not in params:
+                multi = isinstance(params.get("levels"), (list, tuple)) and len(params["levels"]) > 1
+                if multi:
+                    nmulti[0] += 1
+                # every 7th case, and (whatever its position) every 2nd case that requests several output levels: the
+                # level-order twins of the history need a request whose order matters
+                if self.cache_every and (k % self.cache_every == 0 or (multi and nmulti[0] % 2 == 1)) and "_cache" not in params and "_threads" not in params:
                     yield kind, dict(params, _cache=k)
         for kind, params in with_threads():
             if a.max_seconds and time.time() - t0 > a.max_seconds:
@@ -257,9 +264,15 @@ def _attach_cache(salt):
         if not b.arguments["footprint"] or b.arguments["cache"] is not None:
             return real(*args, **kw)
         menu = twins(b)
+        # always: the other background and, for a request of several levels, the same level set in the other orders;
+        # three more, rotating through the rest of the menu
+        always = [t for t in menu if "srf_bg_conc" in t or ("levels" in t and np.ndim(b.arguments["levels"]) > 0 and len(b.arguments["levels"]) > 1)]
+        rest = [t for t in menu if not any(t is a_ for a_ in always)]
+        chosen = list(always)
         for j in range(3):
-            t = menu[(state["n"] + 5 * j) % len(menu)]
+            chosen.append(rest[(state["n"] + 5 * j) % len(rest)])
             state["n"] += 1
+        for t in chosen:
             state.setdefault("hist", []).append(sorted(t))
             state["last"] = state["hist"][-3:]
             try:
@@ -276,6 +289,9 @@ def _attach_cache(salt):
         names = ("X", "Y", "Z", "conc", "flx")
         for nm, x, y in zip(names, list(got[0]) + [got[1], got[2]], list(ref[0]) + [ref[1], ref[2]]):
             x, y = np.asarray(x), np.asarray(y)
+            if x.shape == y.shape and x.dtype.kind in "fc":
+                both_nan = np.isnan(x) & np.isnan(y)            # a non-finite cell that is non-finite in both is no difference
+                x, y = np.where(both_nan, 0.0, x), np.where(both_nan, 0.0, y)
             if x.shape != y.shape or not np.all(np.abs(x - y) <= tol * max(float(np.max(np.abs(y))), 1e-300)):
                 dev = "shape %s vs %s" % (x.shape, y.shape) if x.shape != y.shape else "max deviation %.3e of the maximum" % (
                     float(np.max(np.abs(x - y))) / max(float(np.max(np.abs(y))), 1e-300))
